@@ -130,7 +130,8 @@ TaylorRound == 2
 TaylorTol(pp, kk, xv, lo) ==
     TaylorRound + ((lo + 1) \div TaylorRem(kk)[2] + 1) * TaylorRem(kk)[1]
                 + ((lo + 1) \div (2 ^ pp) + 1) * (AbsV(xv) \div (2 ^ pp) + 3)
-\* the authors' tests (precision 10, 5 terms, |x| <= 10): |e - y| / (1 + max(e, y)) <= 0.01 with e = floor
+\* the authors' tests (precision 10, 5 terms, |x| <= 10): |e - y| / (1 + max(e, y)) <= 0.01 with e = floor;
+\* applied where one unit is below that resolution (e >= 256)
 TaylorAuthors(lo, yy) == 100 * AbsV(lo - yy) <= 1 + MaxV(lo, yy)
 
 \* compiled (secure) evaluation against plaintext evaluation: every MPC truncation returns floor + {0, 1}
@@ -277,10 +278,11 @@ WMulInt(aa, vv) == IF vv < 0 THEN LNeg(WMulNat(aa, 0 - vv)) ELSE WMulNat(aa, vv)
 RecipWithinW(cap, dd, yy, tt) ==
     /\ WLeq(WMulNat(WSub(yy, WNat(tt)), dd), WPow2(cap))
     /\ WLess(WPow2(cap), WMulNat(WAdd(yy, WNat(tt + 1)), dd))
-\* the result of the inverse square root is below 2^22: (y -+ t)^2 * d as d * (y -+ t) * (y -+ t)
-ISqrtWithinW(cap, dd, yv, tt) ==
-    /\ yv - tt <= 0 \/ WLeq(WMulNat(WMulNat(WNat(dd), yv - tt), yv - tt), WPow2(2 * cap))
-    /\ yv + tt + 1 > 0 /\ WLess(WPow2(2 * cap), WMulNat(WMulNat(WNat(dd), yv + tt + 1), yv + tt + 1))
+\* inverse square root: (y -+ t)^2 * d  (one general product per bound)
+ISqrtWithinW(cap, dd, yy, tt) ==
+    LET lw == WSub(yy, WNat(tt))  up == WAdd(yy, WNat(tt + 1)) IN
+    /\ WLeq(lw, WNat(0)) \/ WLeq(WMulNat(WMul(lw, lw), dd), WPow2(2 * cap))
+    /\ WLess(WNat(0), up) /\ WLess(WPow2(2 * cap), WMulNat(WMul(up, up), dd))
 \* Goldschmidt: tolerance tw (limbs)
 DivWithinW(cap, nn, dd, yy, tw) ==
     /\ WLeq(WMulNat(WSub(yy, tw), dd), WShl(WNat(nn), cap))
